@@ -292,6 +292,14 @@ class Real(Interp):
                 return self.rnd(x, y, 'add')
             if fn == 'fabs':
                 return z3.If(a[1] >= 0, a[1], -a[1])
+            if fn == 'pow' and x.args[2].op == 'fc' and isinstance(x.args[2].args[0], Fraction) \
+                    and x.args[2].args[0].denominator == 1 and 0 < x.args[2].args[0] <= 8:
+                # libm pow with a small constant integer exponent: exact power, then an error of at most one ulp
+                # (two rounding units) - glibc's documented accuracy, an assumption of the claim
+                r = a[1]
+                for _ in range(int(x.args[2].args[0]) - 1):
+                    r = r * a[1]
+                return self.rnd(x, self.rnd(x, r, 'mul'), 'mul')
             return self.uf(fn, len(a) - 1)(*a[1:])
         if op == 'bitcast':
             raise ModeError('REAL: bitcast')
